@@ -304,11 +304,17 @@ func (fc *fileController) acquireReader(ctx context.Context, key uint16) (*contr
 func (fc *fileController) newReader(ctx context.Context, key uint16) (*controlledReader, error) {
 	_, span := fc.T.Bench(ctx, "new_reader")
 	defer span.End()
+	// The file is opened and its handle registered in one critical section: garbage
+	// collection, which holds the readers lock while it compacts and swaps a file,
+	// must either see the handle (and skip the file) or finish before the file is
+	// opened.
+	fc.readers.Lock()
 	file, err := fc.FS.Open(
 		fileKeyToName(key),
 		os.O_RDONLY,
 	)
 	if err != nil {
+		fc.readers.Unlock()
 		return nil, span.Error(err)
 	}
 
@@ -316,7 +322,6 @@ func (fc *fileController) newReader(ctx context.Context, key uint16) (*controlle
 		ReaderAtCloser:  file,
 		controllerEntry: newPoolEntry(key, fc.release, fc.Instrumentation),
 	}
-	fc.readers.Lock()
 	f, ok := fc.readers.files[key]
 	if !ok {
 		fc.readers.files[key] = &fileReaders{open: []controlledReader{r}}
